@@ -394,7 +394,10 @@ impl<P: SingleObjectiveProblem> Selection<P> for LinearRank {
         population: &'a [Individual<P>],
         rng: &mut Random,
     ) -> ExecResult<Vec<&'a Individual<P>>> {
-        let weights = f::reverse_rank(population);
+        // `reverse_rank` gives the best individual rank 1, so the weights are the reversed ranks.
+        let ranking = f::reverse_rank(population);
+        let max_rank = ranking.iter().max().cloned().unwrap_or(0);
+        let weights: Vec<_> = ranking.iter().map(|rank| max_rank + 1 - rank).collect();
         let selection = f::sample_population_weighted(population, &weights, self.num_selected, rng)
             .wrap_err("sampling from population failed")?;
         Ok(selection)
@@ -444,7 +447,8 @@ impl<P: SingleObjectiveProblem> Selection<P> for ExponentialRank {
         let factor = (self.base - 1.0) / (self.base.powi(max_rank as i32) - 1.0);
         let weights: Vec<_> = ranking
             .iter()
-            .map(|i| factor * (self.base.powi((max_rank - i) as i32)))
+            // `reverse_rank` gives the best individual rank 1, which gets the largest weight.
+            .map(|i| factor * (self.base.powi((i - 1) as i32)))
             .collect();
         let selection = f::sample_population_weighted(population, &weights, self.num_selected, rng)
             .wrap_err("sampling from population failed")?;
